@@ -20,6 +20,7 @@ def run(ctx):
     progs = F.c08_family(ctx.tier, rnd)
     agg = run_family("C08repeat", progs, NAMES, dev=dev, invariants=INVS, perms=(0,), timeout=3000)
     ctx.add_family(agg)
+    nested_render_part(ctx)
     for f in ctx.known():
         ctx.witness(f)
     ctx.exhaustive = True
@@ -30,3 +31,77 @@ def run(ctx):
                 "text x ordinary / tal: element; non-trivial = at least one iteration")
     ctx.assumptions += ["letter numbering is positional base 26 (a..z, ba, bb, ...), the scheme inherited from Zope; the reference text's 'aa' after 'z' is not demanded",
                         "the separator is compared exactly only when the start tag is the first thing on its line"]
+
+
+def nested_render_part(ctx):
+    """the repeat variables belong to one rendering: a template rendered from inside a loop body (same loop name, other
+    length), completing or abandoned by an exception that the outer template handles, leaves repeat[name] of the outer
+    loop as it was -- also on two threads interleaved at the loop bodies"""
+    import sys
+    import threading
+    from harness import REPO_SRC
+    sys.path.insert(0, REPO_SRC)
+    from chameleon import PageTemplate
+    inner = PageTemplate('<i tal:repeat="x ys">${repeat.x.number}/${repeat.x.length}${boom(x)}</i>')
+    outer = PageTemplate('<ul><li tal:repeat="x xs">[${repeat.x.number}/${repeat.x.length}:${repeat.x.letter}:${x}]'
+                         '<b tal:on-error="string:E">${structure: sub(x)}</b>'
+                         '[${repeat.x.number}/${repeat.x.length}:${repeat.x.index}:${repeat.x.end}:${x}]</li></ul>')
+    n = 0
+    for nx in (1, 2, 3):
+        for ny in (0, 1, 4):
+            for fail_at in (None, 0, 2):
+                xs = ["o%d" % k for k in range(nx)]
+                ys = list(range(ny))
+
+                def boom(v, fail_at=fail_at):
+                    if fail_at is not None and v == fail_at:
+                        raise ZeroDivisionError("boom")
+                    return ""
+
+                def sub(x, ys=ys, boom=boom):
+                    return inner(ys=ys, boom=boom)
+                failed = fail_at is not None and fail_at < ny
+                mid = "E" if failed else "".join("<i>%d/%d</i>" % (k + 1, ny) for k in range(ny)).replace("</i><i>", "</i>\n<i>")
+                want = "<ul>" + "\n".join(
+                    "<li>[%d/%d:%s:%s]<b>%s</b>[%d/%d:%d:%d:%s]</li>" % (k + 1, nx, "abc"[k], xs[k], mid, k + 1, nx, k, int(k == nx - 1), xs[k])
+                    for k in range(nx)) + "</ul>"
+                n += 1
+                try:
+                    got = outer(xs=xs, sub=sub)
+                except Exception as e:
+                    got = "EXC %s: %s" % (type(e).__name__, str(e).splitlines()[:1])
+                if got != want:
+                    ctx.violation("a template rendered from inside a loop body (inner loop of the same name over %d items%s): the outer "
+                                  "template renders %r, expected %r" % (ny, ", abandoned at item %s" % fail_at if failed else "", got, want),
+                                  dict(kind="nested-render-repeat", got=got, want=want))
+                    return
+    # two renderings of one template on two threads, interleaved at their loop bodies
+    tmpl = PageTemplate('<a tal:repeat="x xs">${step(x)}${repeat.x.number}/${repeat.x.length}:${repeat.x.letter}</a>')
+    turn = threading.Semaphore(0), threading.Semaphore(0)
+    out = {}
+
+    def work(me, count):
+        def step(x):
+            turn[1 - me].release()
+            turn[me].acquire(timeout=2)
+            return ""
+        try:
+            out[me] = tmpl(xs=list(range(count)), step=step)
+        except Exception as e:
+            out[me] = "EXC %s" % type(e).__name__
+        for _ in range(8):
+            turn[1 - me].release()
+    ths = [threading.Thread(target=work, args=(0, 3)), threading.Thread(target=work, args=(1, 5))]
+    for t in ths:
+        t.start()
+    turn[0].release()
+    for t in ths:
+        t.join(30)
+    for me, count in ((0, 3), (1, 5)):
+        want = "\n".join("<a>%d/%d:%s</a>" % (k + 1, count, "abcde"[k]) for k in range(count))
+        n += 1
+        if out.get(me) != want:
+            ctx.violation("two renderings of one template interleaved at their loop bodies: the one over %d items renders %r, alone %r" % (
+                count, out.get(me), want), dict(kind="nested-render-repeat"))
+    ctx.replays += n
+    ctx.notes["nested_render_cases"] = n
